@@ -22,16 +22,16 @@ type C01Res struct {
 }
 
 type C01Ev struct {
-	Kind    string   `json:"kind"` // in topup out settle
-	ID      int      `json:"id,omitempty"`
-	Chips   int64    `json:"chips,omitempty"`
-	IDs     []int    `json:"ids,omitempty"`
-	Hand    []int    `json:"hand,omitempty"`    // ids of the hand's entries at settlement (GamePlayerIndexes -> ids)
-	Results []C01Res `json:"results,omitempty"`
-	Stacks  []int64  `json:"stacks,omitempty"`  // stacks the hand engine started with
-	After   [][2]int64 `json:"after"`           // (id, bankroll) of every seated player after the event
-	Between bool     `json:"between_hands"`     // no hand in progress after the event
-	Phase   string   `json:"phase,omitempty"`   // where in the hand an injected operation happened
+	Kind    string     `json:"kind"` // in topup out settle
+	ID      int        `json:"id,omitempty"`
+	Chips   int64      `json:"chips,omitempty"`
+	IDs     []int      `json:"ids,omitempty"`
+	Hand    []int      `json:"hand,omitempty"` // ids of the hand's entries at settlement (GamePlayerIndexes -> ids)
+	Results []C01Res   `json:"results,omitempty"`
+	Stacks  []int64    `json:"stacks,omitempty"` // stacks the hand engine started with
+	After   [][2]int64 `json:"after"`            // (id, bankroll) of every seated player after the event
+	Between bool       `json:"between_hands"`    // no hand in progress after the event
+	Phase   string     `json:"phase,omitempty"`  // where in the hand an injected operation happened
 }
 
 type C01Case struct {
@@ -314,6 +314,10 @@ func runC01(opt Opts) error {
 		for i := 0; i < opt.N; i++ {
 			cases = append(cases, genC01(root, i, opt.Seed))
 		}
+	}
+	if ij, err := json.Marshal(cases); err == nil {
+		os.MkdirAll(opt.Out, 0o755)
+		os.WriteFile(opt.Out+"/inputs.json", ij, 0o644)
 	}
 	var wg sync.WaitGroup
 	sem := make(chan struct{}, 14)
